@@ -7,8 +7,8 @@ Statements over `Varpulis.Routing` (Model/Routing.lean), which mirrors `routing.
 target logic of `coordinator.rs resolve_inject_target` / `inject_batch`.
 `h : Str → Nat` stands for `DefaultHasher` (SipHash-1-3, trusted), `fm : Fmt F` for serde_json's float printer and
 the integer-literal→f64 conversion of the two parsers (trusted). A float key `Key.float f` is a literal that both
-decimal parsers read as the same `f` (true up to 15 written digits and |decimal exponent| ≤ 22; beyond that the run
-shows they differ — known finding `C34-float-literal-rounding`, outside this model).
+decimal parsers read as the same `f`: both are correctly rounded since serde_json's `float_roundtrip` feature is on
+(repaired finding `C34-float-literal-rounding`; every run probes random literals of up to 17 digits through both paths).
 -/
 namespace Varpulis.Props.C34
 open Varpulis.Routing
